@@ -85,7 +85,7 @@ impl Ty {
             Ty::Uuid => same(*rng.pick(&["123e4567-e89b-12d3-a456-426614174000", "AAAAAAAA-bbbb-CCCC-dddd-EEEEEEEEEEEE"])),
             Ty::Date => same(*rng.pick(&["2020-01-31", "1999-12-01", "5-10-09"])),
             Ty::Any => {
-                let v = *rng.pick(&["x", "foo_bar", "Some Value", "CamelCaseText", "a,b;c"]);
+                let v = *rng.pick(&["x", "foo_bar", "Some Value", "CamelCaseText", "a,b;c", "\u{c9}t\u{e9} \u{e0} Paris", "stra\u{df}e"]);
                 if in_path {
                     // the capture is taken from the sanitised URL
                     (v.to_string(), sanitize_path_literal(v))
@@ -167,8 +167,14 @@ impl Tr {
                 if *from > s.len() {
                     String::new()
                 } else {
-                    let to = to.unwrap_or(s.len()).min(s.len());
-                    s[*from..to.max(*from)].to_string()
+                    let to = to.unwrap_or(s.len()).min(s.len()).max(*from);
+                    if !s.is_char_boundary(*from) || !s.is_char_boundary(to) {
+                        // an offset inside a multi-byte character: outside the statement (the generator
+                        // discards the case; what the library does there is C07's subject)
+                        OUT_OF_DOMAIN.with(|f| f.set(true));
+                        return String::new();
+                    }
+                    s[*from..to].to_string()
                 }
             }
             Tr::Noop(_) => s.to_string(),
@@ -252,7 +258,22 @@ fn substitute(template: &str, values: &BTreeMap<String, String>) -> String {
     out
 }
 
+thread_local! {
+    /// set by the transformer model when a generated chain leaves the domain of the statement
+    static OUT_OF_DOMAIN: std::cell::Cell<bool> = const { std::cell::Cell::new(false) };
+}
+
 pub fn random_case(rng: &mut Rng) -> Case {
+    loop {
+        OUT_OF_DOMAIN.with(|f| f.set(false));
+        let case = random_case_unchecked(rng);
+        if !OUT_OF_DOMAIN.with(|f| f.get()) {
+            return case;
+        }
+    }
+}
+
+fn random_case_unchecked(rng: &mut Rng) -> Case {
     let mut cfg = Cfg::plain();
     cfg.ignore_marketing_query_params = rng.coin();
     if rng.chance(1, 4) {
